@@ -779,6 +779,15 @@ def run_weak(d):
     for dk, _, _ in privs:
       P = point_of(dk)
       keys.append(art.ec_key(cid, P[0], P[1], pad=len(keys) % 2))
+    if d.get('pre'):
+      # the keys carry annotations of earlier checks (another check already marked every second key weak,
+      # as CheckWeakCurve does for secp192r1 inside CheckAllEC): the structured key must still be found
+      libcall(ec_single_checks.CheckValidECKey().Check, keys)
+      for k in keys[::2]:
+        r = k.test_info.test_results.add()
+        r.test_name, r.result, r.severity = 'CheckSomethingElse', True, 2
+        k.test_info.weak = True
+      cls.add('weak:keys-annotated-by-earlier-checks')
     ret = libcall(ec_single_checks.CheckWeakECPrivateKey().Check, keys)
     any_struct = False
     for i, ((dk, w, ksel), key) in enumerate(zip(privs, keys)):
